@@ -40,6 +40,7 @@ var TamperKinds = []string{
 	"wildcard-replay-forged-nsec", // same, with a forged unsigned NSEC owned outside the zone that spans the name
 	"dname-cname-prefix",          // DNAME answer: the unsigned synthesised CNAME's leading labels altered (suffix and length kept)
 	"forge-self-signer",           // answer data altered; its RRSIGs name the record's own owner as signer (a non-cut name inside the zone)
+	"empty-reply",                 // every answer and authority record removed: NOERROR with nothing in it
 	"flip-last-rrset",             // only the RRset that sorts last (owner, type) is altered; every other RRset of the response stays genuine
 	"sig-corrupt-last",            // only the signatures covering the RRset that sorts last are corrupted
 }
@@ -237,6 +238,13 @@ func Apply(kind string, a *Answer, attacker, other *Zone) (*dns.Msg, bool) {
 			}
 			m.Extra = append(resign(ex), opt)
 		}
+	case "empty-reply":
+		if len(m.Answer)+len(m.Ns) == 0 {
+			return nil, false
+		}
+		m.Answer, m.Ns, m.Extra = nil, nil, keepOPT(m.Extra)
+		m.Rcode = dns.RcodeSuccess
+		changed = true
 	case "flip-last-rrset", "sig-corrupt-last":
 		// a validator that authenticates RRset by RRset must not let the good ones vouch for
 		// the last one
